@@ -117,8 +117,10 @@ class MemFile:
         if self.pos < len(self.node.data):
             s = self.node.data[self.pos]
             self.pos += 1
-            return s if self.text else _Line(s)
-        return "" if self.text else _Line("")
+            if self.text:
+                return s
+            return s.encode("utf-8", "surrogateescape") if type(s) is str else _Line(s)
+        return "" if self.text else b""
 
     def readlines(self, hint=-1):
         out = []
